@@ -408,6 +408,10 @@ type c03Built struct {
 }
 
 func c03ParseOnce(g *Grammar, input string, prefix int, memo bool, e *c03Event, shim bool, long bool, keep **c03Built) (o c03Obs) {
+	return c03ParseOnceOpt(g, input, prefix, memo, false, e, shim, long, keep)
+}
+
+func c03ParseOnceOpt(g *Grammar, input string, prefix int, memo, refMemo bool, e *c03Event, shim bool, long bool, keep **c03Built) (o c03Obs) {
 	defer func() {
 		if r := recover(); r != nil {
 			if d, ok := r.(discard); ok {
@@ -430,7 +434,7 @@ func c03ParseOnce(g *Grammar, input string, prefix int, memo bool, e *c03Event, 
 		*st = *newGuard(long) // the wrappers hold st: reset the per-parse counters in place
 	} else {
 		st = newGuard(long)
-		b = build(g, &buildOpts{Memo: memo, Order: e.Order, CloneBeforeRTrim: shim, Wrap: guardWrap(st, memo)})
+		b = build(g, &buildOpts{Memo: memo, RefMemo: refMemo, Order: e.Order, CloneBeforeRTrim: shim, Wrap: guardWrap(st, memo)})
 		if keep != nil {
 			*keep = &c03Built{b, st}
 		}
@@ -518,6 +522,13 @@ func c03Judge(c *c03Case, shim bool, v *Verdict) (class, detail string) {
 			}
 			if memo == nil {
 				memo = &o
+				// the library's Memoize against the reference memo table (same grammar, same
+				// construction order): identical whatever other combinators do to shared nodes
+				ref := c03ParseOnceOpt(c.G, c.Input, c.Prefix, true, true, e, shim, c.Long, nil)
+				v.Probes["reference_memo_parses"]++
+				if ref.discard == "" && !shim && (ref.visible() != o.visible() || ref.calls != o.calls) {
+					return "memo-model", fmt.Sprintf("the memoised build differs from the same grammar with the reference memo table (one entry per context and position, stored result handed back as is) on input %q:\n  Memoize:   %s calls=%d\n  reference: %s calls=%d", c.Input, clip(o.visible()), o.calls, clip(ref.visible()), ref.calls)
+				}
 			} else if o.visible() != memo.visible() || o.calls != memo.calls {
 				return "determinism:memo", fmt.Sprintf("repeating the parse of the memoised build on a fresh context (other construction order / index gap / map order) gave a different observation:\n  first: %s calls=%d\n  later: %s calls=%d", clip(memo.visible()), memo.calls, clip(o.visible()), o.calls)
 			}
